@@ -59,7 +59,7 @@ func C14(r *ev.Report) {
 	r.Rule("Scalar.Bits on every member of the scalar alphabet K (0..small, 2^i, 2^i+-1, n-1-2^i, 2^i-2^j, around n/2 and 2^255, limb products) and of the value alphabet V_n; non-trivial = value >= 2^64")
 	r.Bound("scalars", len(ks))
 
-	ev.ParFor(len(ks), func(_, i int) {
+	r.ParFor(len(ks), func(_, i int) {
 		v := ks[i]
 		r.Evals.Add(1)
 		r.Transitions.Add(256)
